@@ -76,6 +76,7 @@ func (s *sim) onTick() {
 	d := s.during
 	s.during = nil
 	s.inCall = false // env steps may tick themselves
+	s.frameSnap("pause", "during") // C18: the simulation bracket is suspended while the environment moves
 	for _, st := range d {
 		if err := s.step(st); err != nil {
 			s.w.Emit(trace.M{"e": "Note", "what": "during-error", "kind": "-", "name": "-", "msg": err.Error()})
@@ -83,6 +84,7 @@ func (s *sim) onTick() {
 	}
 	s.inCall = true
 	s.snapshot("during")
+	s.frameSnap("resume", "during")
 }
 
 func (s *sim) runCandidates(method string) error {
@@ -124,6 +126,7 @@ func (s *sim) runMethod(method string, during []Step) error {
 		return err
 	}
 	s.snapshot("pre-method")
+	s.frameSnap("pre", "method")
 	s.w.Emit(trace.M{"e": "Begin", "controller": "disruption.method", "object": method})
 	var cmds []kdisruption.Command
 	var budgets map[string]int
@@ -146,9 +149,13 @@ func (s *sim) runMethod(method string, during []Step) error {
 			b[k] = v
 		}
 		s.w.Emit(trace.M{"e": "Budget", "method": method, "reason": string(m.Reason()), "allowed": b})
+		s.frameSetCands(cs)
+		s.frameSnap("rebase", "method") // C18: from here on the candidates (and their pods) are part of the frame
 		cmds, e = m.ComputeCommands(ctx, budgets, cs...)
 		return e
 	})
+	s.frameSnap("post", "method")
+	s.frameSetCands(nil)
 	for i := range cmds {
 		if cmds[i].Decision() == kdisruption.NoOpDecision {
 			continue
@@ -374,6 +381,10 @@ func (s *sim) step(st Step) error {
 		s.deliver("NodeClaim", claimName(n), "")
 	case "Snapshot":
 		s.snapshot("step")
+	case "Simulate": // C18 (x_frame.go)
+		return s.runSimulate(st)
+	case "Pass": // C18 (x_frame.go)
+		return s.runPass()
 	default:
 		return fmt.Errorf("unknown step %q", st.A)
 	}
@@ -407,6 +418,7 @@ func RunOne(sc *Scenario, tw *trace.Writer) (err error) {
 	}
 	defer func() {
 		delete(bufferCounts, s)
+		delete(frameState, s)
 		if r := recover(); r != nil {
 			err = fmt.Errorf("scenario %s: panic in driver: %v", sc.Name, r)
 		}
